@@ -1,6 +1,7 @@
 package core
 
 import (
+	"regexp"
 	"fmt"
 	"sort"
 	"go/constant"
@@ -308,6 +309,34 @@ func (a *BitAnalyzer) bits(v ssa.Value, w int) BitVec {
 				}
 			}
 			return out
+		case token.QUO, token.REM, token.MUL:
+			// by a constant power of two: unsigned division is a right shift, the remainder a mask,
+			// multiplication a left shift
+			k, ok := a.P.Const(x.Y)
+			src := l
+			if !ok && x.Op == token.MUL {
+				k, ok = a.P.Const(x.X)
+				src = r
+			}
+			if ok && k > 0 && k&(k-1) == 0 && src != nil && len(src) == w && (x.Op == token.MUL || !isSigned(x.X.Type())) {
+				n := 0
+				for kk := k; kk > 1; kk >>= 1 {
+					n++
+				}
+				out := make(BitVec, w)
+				for i := 0; i < w; i++ {
+					out[i] = Bit{Kind: BZero}
+					switch {
+					case x.Op == token.QUO && i+n < w:
+						out[i] = src[i+n]
+					case x.Op == token.REM && i < n:
+						out[i] = src[i]
+					case x.Op == token.MUL && i-n >= 0:
+						out[i] = src[i-n]
+					}
+				}
+				return out
+			}
 		case token.ADD:
 			if l == nil || r == nil || len(l) != w || len(r) != w {
 				return mixVec(w)
@@ -433,7 +462,7 @@ func (a *BitAnalyzer) inlineCall(call *ssa.Call, w int) BitVec {
 				src = strings.ReplaceAll(src, m, a.P.Path(arg))
 			}
 		}
-		return src
+		return normalizeWindows(src)
 	}
 	out := make(BitVec, w)
 	for i, b := range rb {
@@ -735,4 +764,30 @@ func SourceVec(src string, w int) BitVec {
 		out[i] = Bit{Kind: BSrc, Src: src, Idx: i}
 	}
 	return out
+}
+
+var windowIndexRe = regexp.MustCompile(`\[(\d*):(\d*)\]\[(\d+)\]`)
+
+// normalizeWindows rewrites x[a:b][k] (constants, k inside the window) as x[a+k]: an element read
+// through a constant window of a slice or array is that element.
+func normalizeWindows(s string) string {
+	for i := 0; i < 4; i++ {
+		m := windowIndexRe.FindStringSubmatchIndex(s)
+		if m == nil {
+			return s
+		}
+		var a, b, k int64 = 0, -1, 0
+		if m[2] != m[3] {
+			fmt.Sscanf(s[m[2]:m[3]], "%d", &a)
+		}
+		if m[4] != m[5] {
+			fmt.Sscanf(s[m[4]:m[5]], "%d", &b)
+		}
+		fmt.Sscanf(s[m[6]:m[7]], "%d", &k)
+		if b >= 0 && a+k >= b {
+			return s
+		}
+		s = s[:m[0]] + fmt.Sprintf("[%d]", a+k) + s[m[1]:]
+	}
+	return s
 }
